@@ -19,7 +19,7 @@ func genLapack(g *vlib.G) {
 		return // the bounds tag only affects mat
 	}
 	impl := reflect.ValueOf(lgonum.Implementation{})
-	defMenu := vlib.Pick(g, []int{0, 1, 2, 4}, []int{0, 1, 2, 3, 5})
+	defMenu := vlib.Pick(g, []int{0, 1, 2, 3, 5}, []int{0, 1, 2, 3, 4, 6})
 	for _, r := range lapackRows() {
 		lm := newLMethod(impl, r)
 		type axis struct {
